@@ -143,7 +143,9 @@ def string_modes(rng, chars, q):
         o = ord(c)
         must = c == q or c in '\\\n\r\f\0' or (c == '#' and i + 1 < len(chars) and chars[i + 1] == '{')
         k = rng.random()
-        if must or k < 0.2:
+        if c == ' ':
+            mode = 'lit'        # an escaped space in a string is C27's subject (the first compile loses it)
+        elif must or k < 0.2:
             if c not in HEXD and c not in '\n\r\f\0' and (c in (q, '\\') or k < 0.07) and rng.random() < 0.7:
                 mode = 'bs'
             else:
@@ -567,8 +569,63 @@ def well_framed(out1):
         return False
 
 
+def decode(t):
+    """The characters a CSS token stands for (escapes resolved as CSS Syntax says)."""
+    out = []
+    i, n = 0, len(t)
+    while i < n:
+        c = t[i]
+        if c == '\\' and i + 1 < n:
+            j = i + 1
+            if t[j] in HEXD:
+                k = j
+                while k < n and k < j + 6 and t[k] in HEXD:
+                    k += 1
+                cp = int(t[j:k], 16)
+                out.append('\ufffd' if cp == 0 or cp > 0x10ffff or 0xd800 <= cp <= 0xdfff else chr(cp))
+                if k < n and t[k] in ' \t\n\r\f':
+                    k += 1
+                i = k
+            elif t[j] == '\n':
+                i = j + 1
+            else:
+                out.append(t[j])
+                i = j + 1
+        else:
+            out.append(c)
+            i += 1
+    return ''.join(out)
+
+
+def meaning(text):
+    """Token stream of emitted CSS with every escape resolved and quote marks dropped: what the text says, not how."""
+    out = []
+    glue = False
+    for kind, t in css.scan(noblank(text)):
+        if kind == 'ws':
+            glue = False
+            continue
+        if kind == 'string':
+            out.append(('s', decode(t[1:-1])))
+        elif kind == 'other':
+            if glue and out and out[-1][0] == 'o':
+                out[-1] = ('o', out[-1][1] + t)
+            else:
+                out.append(('o', t))
+        else:
+            out.append((kind, t))
+        glue = kind == 'other'
+    return [(k, decode(t)) if k in ('o', 'url') else (k, t) for k, t in out]
+
+
 def diff_kind(a, b):
-    """differs-only-in-whitespace when the two texts are equal once all whitespace is removed, else differs"""
+    """respelled: the same tokens once escapes are resolved (other quote marks, other escapes, an escape's terminating
+    space); differs-only-in-whitespace: equal once all whitespace is removed; else differs"""
+    try:
+        if meaning(a) == meaning(b):
+            return 'respelled'
+    except Exception:
+        pass
     if ''.join(a.split()) == ''.join(b.split()):
         return 'differs-only-in-whitespace'
     return 'differs'
@@ -679,7 +736,7 @@ def isolate(ctx, case, observed, detail):
         if 'string' in a['kind']:
             seq = sorted(set(seq))  # inside quotes the order of the characters does not matter
         part = '%s|chars=%s' % (a['kind'], ','.join(seq))
-        if x[1] == 'differs-only-in-whitespace' and a['kind'] == 'keyframes-name':
+        if x[1] == 'respelled':
             part = a['kind']        # the characters only matter through the escape that writes them
         ctx.violation('%s|observed=%s' % (part, x[1]), {'src': src, 'part': part}, x[2])
 
